@@ -134,3 +134,8 @@ def ref_protocol(version_text: str) -> str | None:
         if (cmaj, cmin) <= pair:
             best = cand
     return best
+
+
+def plain_int(text: str) -> bool:
+    """True for a plain ASCII decimal integer of sane length (what harness code may safely int())."""
+    return bool(_CANON.match(text)) and len(text) < 100
